@@ -26,3 +26,5 @@ def run(check):
     check.run_rule('C13.R5', lambda c: rule_wrappers_enumeration(c, 'C13.R5'))
     check.run_rule('C13.R6', lambda c: rule_as_forged_get(c, 'C13.R6'))
     check.run_rule('C13.R6b', lambda c: rule_recursion_guard_emptied(c, 'C13.R6'))
+    from ..rules_windows import rule_thread_local_access
+    check.run_rule('C13.R6c', lambda c: rule_thread_local_access(c, 'C13.R6'))
